@@ -32,11 +32,16 @@ pub struct Case {
     /// the request's "key" header and this salt, instead of the allow-list
     pub custom: Option<u8>,
     pub clones: u8,
+    #[serde(default)]
+    pub id_layout: u8,
     pub ops: Vec<Op>,
 }
 
-fn pid(i: u8) -> PeerId {
-    PeerId([i.wrapping_mul(37).wrapping_add(5); 32])
+/// Identities share all bytes but one; `layout` selects which byte tells them apart.
+fn pid(i: u8, layout: u8) -> PeerId {
+    let mut id = [0x77; 32];
+    id[[0usize, 5, 8, 16, 31][layout as usize % 5]] = i.wrapping_add(1);
+    PeerId(id)
 }
 
 #[derive(Default)]
@@ -165,7 +170,7 @@ where
                 next += 1;
                 let mut req = Request::new(Bytes::from(format!("req-{id}"))).with_header("id", id.to_string()).with_header("key", key.to_string());
                 if let Some(s) = sender {
-                    req = req.with_extension(pid(s % 6));
+                    req = req.with_extension(pid(s % 6, case.id_layout));
                 }
                 let expect = match case.custom {
                     Some(salt) => match custom_verdict(*key, salt) {
@@ -224,7 +229,7 @@ pub fn check(case: &Case, obs: &mut Obs) -> Result<(), Fail> {
     match case.custom {
         Some(salt) => drive(case, Custom(salt), obs),
         None => {
-            let peers = (0..6u8).filter(|i| case.allow & (1 << i) != 0).map(pid);
+            let peers = (0..6u8).filter(|i| case.allow & (1 << i) != 0).map(|i| pid(i, case.id_layout));
             drive(case, AllowedPeers::new(peers), obs)
         }
     }
@@ -243,8 +248,8 @@ impl Part for Histories {
             4 => any::<u16>().prop_map(Op::Poll),
             1 => any::<u16>().prop_map(Op::Drop),
         ];
-        (0u8..64, prop::option::weighted(0.4, any::<u8>()), 1u8..5, prop::collection::vec(op, 1..40))
-            .prop_map(|(allow, custom, clones, ops)| Case { allow, custom, clones, ops })
+        (0u8..64, prop::option::weighted(0.4, any::<u8>()), 1u8..5, 0u8..5, prop::collection::vec(op, 1..40))
+            .prop_map(|(allow, custom, clones, id_layout, ops)| Case { allow, custom, clones, id_layout, ops })
             .boxed()
     }
     fn run(&self, c: &Case, obs: &mut Obs) -> Result<(), Fail> { check(c, obs) }
